@@ -398,6 +398,24 @@ package phase0
 //@     invariant validators == st_vals(state) && viter_reg == validators && fnid(valIterNext) == n_viter && 0 <= viter_pos && viter_pos <= reg_len(validators) && n_val_write == old(n_val_write) && genTime == st_gentime(state)
 //@     invariant activeCount == reg_act_count(n_val_write, validators, common.GENESIS_EPOCH, viter_pos) && activeCount <= viter_pos
 
+// the concrete state's slot and fork record (assumed accessor models; read by the next fork's upgrade function)
+//@ sort StatePtr_phase0 = *BeaconStateView
+//@ sort ForkRec_phase0 = common.Fork
+//@ ufun pst_slot_err_phase0(StatePtr_phase0) bool
+//@ ufun pst_slot_phase0(StatePtr_phase0) int
+//@ ufun pst_fork_err_phase0(StatePtr_phase0) bool
+//@ ufun pst_fork_phase0(StatePtr_phase0) ForkRec_phase0
+//@ func (state *BeaconStateView) Slot() (r, err)
+//@   trusted
+//@   opt noalloc
+//@   ensures (err != nil) == pst_slot_err_phase0(state)
+//@   ensures err == nil ==> r == pst_slot_phase0(state)
+//@ func (state *BeaconStateView) Fork() (r, err)
+//@   trusted
+//@   opt noalloc
+//@   ensures (err != nil) == pst_fork_err_phase0(state)
+//@   ensures err == nil ==> r == pst_fork_phase0(state)
+
 // BEGIN C18 generated (tools/gen_c18.py in /verif)
 // cancelled: a context cancelled before the call makes it fail; surfaced: a cancellation observed by a poll
 // during the call makes it fail; polled: success after a poll means the context was not cancelled at entry.
